@@ -441,7 +441,7 @@ func init() {
 					if nx == nil || len(nx.Args) != 2 || fi.varOf(nx.Args[1]) != succ {
 						return true
 					}
-					cp := fi.isBuiltin(nx.Args[0], "append")
+					cp := fi.isBuiltin(fi.deref(nx.Args[0]), "append")
 					if cp == nil || len(cp.Args) != 2 || fi.varOf(cp.Args[1]) != v.curr || !cp.Ellipsis.IsValid() {
 						return true
 					}
@@ -555,7 +555,7 @@ func init() {
 						if nx == nil || len(nx.Args) != 2 || fi.varOf(nx.Args[1]) != succ {
 							return true
 						}
-						cp := fi.isBuiltin(nx.Args[0], "append")
+						cp := fi.isBuiltin(fi.deref(nx.Args[0]), "append")
 						if cp == nil || len(cp.Args) != 2 || fi.varOf(cp.Args[1]) != v.curr || !cp.Ellipsis.IsValid() {
 							return true
 						}
@@ -958,18 +958,13 @@ func init() {
 				}
 				r.Check(guarded, "alias-guard", st.Pos(), "insertion is dominated by the non-nil edge of the concrete lookup")
 				if gif != nil {
-					// the nil edge: the body of `if concrete == nil {…; continue}`, or the else of `if concrete != nil {insert} else {…}`
-					nilEdge, leaves := gif.Body, terminates(gif.Body)
-					if fi.within(st, gif.Body) {
-						nilEdge, _ = gif.Else.(*ast.BlockStmt)
-						leaves = nilEdge != nil // the insertion is in the other arm: nothing is inserted on this edge
-					} else if gif.Else != nil && fi.within(st, gif.Else) {
-						leaves = true // likewise, the other way round
-					}
+					// the nil edge: the body of `if concrete == nil {…; continue}`, the else of `if concrete != nil {insert} else {…}`,
+					// or what follows `if concrete != nil {insert; continue}`
+					calls, uncond, leaves, okE := fi.otherEdge(gif, st)
 					added := false
-					if nilEdge != nil {
-						for _, cl := range callsIn(nilEdge) {
-							if fi.calleeName(cl) == fnECAdd && fi.unconditionalIn(cl, nilEdge) {
+					if okE {
+						for _, cl := range calls {
+							if fi.calleeName(cl) == fnECAdd && uncond(cl) {
 								added = true
 							}
 						}
